@@ -24,9 +24,12 @@ class RelationshipBuilder(object):
         tx_column = option(obj, 'transaction_column_name')
 
         remote_alias = sa.orm.aliased(self.remote_cls)
+        remote_mapper = sa.inspect(remote_alias).mapper
+        # attribute keys (an attribute may be named differently from its
+        # column: id = Column('_id'))
         primary_keys = [
-            getattr(remote_alias, column.name) for column
-            in sa.inspect(remote_alias).mapper.columns
+            remote_mapper.get_property_by_column(column).key for column
+            in remote_mapper.columns
             if column.primary_key and column.name != tx_column
         ]
 
@@ -36,13 +39,13 @@ class RelationshipBuilder(object):
                     getattr(remote_alias, tx_column) <=
                     getattr(obj, tx_column),
                     *[
-                        getattr(remote_alias, pk.name) ==
-                        getattr(self.remote_cls, pk.name)
+                        getattr(remote_alias, pk) ==
+                        getattr(self.remote_cls, pk)
                         for pk in primary_keys
                     ]
                 )
             ).group_by(
-                *primary_keys
+                *[getattr(remote_alias, pk) for pk in primary_keys]
             ).having(
                 sa.func.max(getattr(remote_alias, tx_column)) ==
                 getattr(self.remote_cls, tx_column)
@@ -267,7 +270,11 @@ class RelationshipBuilder(object):
 
         tx_column = option(obj, 'transaction_column_name')
         join_column = self.property.primaryjoin.right.name
-        object_join_column = self.property.primaryjoin.left.name
+        # attribute of the parent's join column (may be named differently
+        # from the column)
+        object_join_column = self.property.parent.get_property_by_column(
+            self.property.primaryjoin.left
+        ).key
         reflector = VersionExpressionReflector(obj, self.property)
 
         association_table_alias = self.association_version_table.alias()
